@@ -53,7 +53,14 @@ fn gen(r: &mut Rng, prop: &str) -> (SCase, Vec<u8>) {
         let mut pid = 1000;
         let k = 1 + r.below(6);
         for _ in 0..k {
-            let idx = r.below(c.body.len() as u64) as usize;
+            let mut idx = r.below(c.body.len() as u64) as usize;
+            if prop == "C20" || prop == "C16" {
+                // bias towards branch sites, br_table first
+                let tables: Vec<usize> = (0..c.body.len()).filter(|i| matches!(c.body[*i], Op::BrTable(..))).collect();
+                let branches: Vec<usize> = (0..c.body.len()).filter(|i| c.body[*i].is_branchy()).collect();
+                if !tables.is_empty() && r.chance(1, 3) { idx = *r.pick(&tables); }
+                else if !branches.is_empty() && r.chance(1, 3) { idx = *r.pick(&branches); }
+            }
             let op = &c.body[idx];
             let (blockish, branchy) = (op.is_blockish(), op.is_branchy());
             let mut cands = vec![];
